@@ -23,9 +23,8 @@ structure Twin (c s : Sys) (ta tb : Tcb) : Prop where
   da : (c.side .A).delivered = (s.side .A).delivered
   db : (c.side .B).delivered = (s.side .B).delivered
 
-/-- the peer B is idle: nothing unsent, nothing unacknowledged; A holds no pure ACK to send -/
+/-- the peer B is idle: nothing unsent, nothing unacknowledged -/
 structure IdleB (ta tb : Tcb) : Prop where
-  oa : ta.outgoing.oneshot = []
   tbt : tb.outgoing.text = []
   qb : tb.outgoing.retransmit = []
 
@@ -150,7 +149,7 @@ theorem phase_twin (s c : Sys) (hg : Good iss s) (ta tb : Tcb) (hs : Steady s ta
     rfl
   have hoa' : ta'.outgoing.oneshot = [] := pa.one hamtB
   have hidle' : IdleB ta' tb' := by
-    refine ⟨hoa', by rw [pb.text, hi.tbt]; simp, ?_⟩
+    refine ⟨by rw [pb.text, hi.tbt]; simp, ?_⟩
     refine keepOk_empty tb' (hg'.ext.tcb .B tb' hs'.hb).keep ((hg'.conv.full.inv.link .B).snd tb' hs'.hb).1
       (hg'.sent_lt .B tb' hs'.hb) ?_
     rcases hs'.b.lastack with h | ⟨h, hl, _⟩
